@@ -492,3 +492,27 @@ Proof.
   - intros t Ht. rewrite px2m1_eval, px2m1_d1. split; nra.
   - intros t _. rewrite px2m1_d2. lra.
 Qed.
+
+(* ------------------------------------------------------------------------- *)
+(* the hypothesis tol <= 100 of c07_sound is needed (finding F-C07-STALE-100): *)
+(* x^2 + 1 from 1 with tol = 200 returns Ok 0 although g 0 = 1                *)
+(* ------------------------------------------------------------------------- *)
+Lemma nr_loop_break {T} {NT : Num T} (f f' : T -> res T) tol cap fuel s s' :
+  nr_body f f' tol cap s = Ok (s', true) -> nr_loop f f' tol cap fuel s = Ok s'.
+Proof. intro H. destruct fuel; cbn [nr_loop]; rewrite H; reflexivity. Qed.
+
+Lemma c07_tol_above_100_counterexample :
+  nrm (fun x => Ok (x * x + 1)) (fun x => Ok (2 * x)) 1 100 200 = Ok 0.
+Proof.
+  unfold nrm.
+  rewrite (nr_loop_break _ _ 200 100%nat 100%nat (nr_start 1)
+             {| ns_iter := 1; ns_x := 0; ns_old := 1; ns_err := 100 |}).
+  - reflexivity.
+  - unfold nr_body, nr_start, nfinite, nneb.
+    cbn [ns_x ns_iter ns_err bind nsub ndiv nmul nabs neqb nltb n0 RNum].
+    replace (1 - (1 * 1 + 1) / (2 * 1)) with 0 by field.
+    rewrite c100_R. rbool. cbn [negb bind].
+    replace (Rabs 100) with 100 by (symmetry; apply Rabs_pos_eq; lra).
+    rbool. reflexivity.
+Qed.
+
